@@ -12,7 +12,21 @@ impl Params {
         // - k >= 3 so the encoded solutions have an exact byte length.
         // - k < n, so the collision bit length is at least 1.
         // - n is a multiple of k + 1, so we have an integer collision bit length.
-        if n.is_multiple_of(8) && (k >= 3) && (k < n) && n.is_multiple_of(k + 1) {
+        // - n <= 512, so at least one n-bit hash fits in a BLAKE2b output.
+        // - The collision bit length is between 8 and 24 bits, so that both the hash
+        //   segments and the (one bit wider) indices can be unpacked by `expand_array`
+        //   through its 32-bit accumulator.
+        // - k is at most the index bit length: a solution consists of 2^k distinct
+        //   indices, so none can exist otherwise. This also keeps the encoded solution
+        //   length, 2^k * (collision bit length + 1) / 8, well within a `usize`.
+        if n.is_multiple_of(8)
+            && (k >= 3)
+            && (k < n)
+            && n.is_multiple_of(k + 1)
+            && (n <= 512)
+            && (8..=24).contains(&(n / (k + 1)))
+            && (k <= n / (k + 1) + 1)
+        {
             Some(Params { n, k })
         } else {
             None
@@ -33,5 +47,27 @@ impl Params {
     #[cfg(test)]
     pub(crate) fn hash_length(&self) -> usize {
         ((self.k as usize) + 1) * self.collision_byte_length()
+    }
+}
+
+#[cfg(test)]
+mod tests {
+    use super::Params;
+
+    #[test]
+    fn unrepresentable_params_are_rejected() {
+        // Parameters used by Zcash and by the test vectors.
+        for (n, k) in [(200, 9), (48, 5), (96, 5), (96, 3), (144, 5), (192, 7)] {
+            assert!(Params::new(n, k).is_some());
+        }
+        // Collision bit length below 8 or above 24 bits.
+        assert!(Params::new(8, 3).is_none());
+        assert!(Params::new(104, 3).is_none());
+        // More than 512 bits per hash.
+        assert!(Params::new(520, 25).is_none());
+        // Solution lengths that overflow.
+        assert!(Params::new(128, 63).is_none());
+        assert!(Params::new(128, 127).is_none());
+        assert!(Params::new(512, 63).is_none());
     }
 }
